@@ -45,6 +45,7 @@ typedef struct vf_os_state_s {
   long        fail_at[VF_MAX_FAILS];   /* call indices that fail once; -1 = unused */
   long        fail_from;               /* every call with index >= fail_from of a kind in fail_kinds fails; -1 = off */
   unsigned    fail_kinds;              /* bit mask over VF_C_* for fail_from */
+  unsigned    never_fail_kinds;        /* bit mask over VF_C_*: calls of these kinds are never refused, whatever the plan says */
   /* environment answers */
   int         reset_zero;         /* MADV_FREE: 0 = keep contents, 1 = drop contents at once */
   int         madv_free_einval;   /* 1: MADV_FREE is answered EINVAL (drives the documented fallback) */
